@@ -36,6 +36,7 @@ type Engine struct {
 	descCache  map[*ssa.Function]map[ssa.Instruction]string
 	skipNil    bool
 	covers     bool
+	modTop     sync.Mutex // serialises frame inference traversals (see modInfer)
 	embedOnce  sync.Once
 	namedOnce  sync.Once
 	named      map[string]types.Type
@@ -750,7 +751,15 @@ func (e *Engine) instrMods(fn *ssa.Function, in ssa.Instruction, ms *modSet, r *
 	}
 }
 
-func (e *Engine) modInfer(fn *ssa.Function) *modSet { return e.modInferDepth(fn, 0) }
+// modInfer is entered by one goroutine at a time: the "in progress" marker in
+// modCache means recursion only if it was set by the same traversal (functions
+// are verified in parallel; a second traversal seeing the marker would wrongly
+// conclude that the callee is recursive and give it an unbounded frame).
+func (e *Engine) modInfer(fn *ssa.Function) *modSet {
+	e.modTop.Lock()
+	defer e.modTop.Unlock()
+	return e.modInferDepth(fn, 0)
+}
 
 func (e *Engine) modInferDepth(fn *ssa.Function, depth int) *modSet {
 	e.mu.Lock()
@@ -781,6 +790,8 @@ func (e *Engine) modInferDepth(fn *ssa.Function, depth int) *modSet {
 }
 
 func (e *Engine) loopMods(fn *ssa.Function, l *loopT, r *FnRun) *modSet {
+	e.modTop.Lock()
+	defer e.modTop.Unlock()
 	ms := newModSet()
 	for b := range l.body {
 		for _, in := range b.Instrs {
